@@ -85,6 +85,8 @@ type SConn struct {
 	Outstanding map[int]*Reply // stream → reply not (fully) delivered
 	Dead        bool
 	NeedAuth    bool
+	// Advertised is the COMPRESSION list of the last SUPPORTED sent on this connection.
+	Advertised []string
 	// partial is a reply of which only a prefix has been delivered; the byte stream of
 	// a connection is sequential, so its remainder goes out before anything else.
 	partial *Reply
@@ -119,6 +121,8 @@ type Cluster struct {
 	// ResponseCompress makes the node compress response bodies on connections that
 	// negotiated compression.
 	ResponseCompress bool
+	// NoWireOracle turns the generic C03/C18 request checks off (byzantine scenarios).
+	NoWireOracle bool
 	// PeersHook, when set, replaces PeersOf (invalid / duplicated / changed rows).
 	PeersHook func(h *Host) []PeerRow
 	// FailPeers makes system.peers queries fail with a server error.
@@ -273,6 +277,7 @@ func (cl *Cluster) handle(sc *SConn, frame []byte) {
 	sc.Requests = append(sc.Requests, rec)
 	if err != nil {
 		cl.K.Rec("recv %s UNDECODABLE %v", sc.C.Name, err)
+		cl.wireViolation(sc, frame, err)
 	} else {
 		cl.K.Rec("recv %s s=%d %s", sc.C.Name, rec.Stream, Describe(rq))
 	}
@@ -299,8 +304,10 @@ func (cl *Cluster) handle(sc *SConn, frame []byte) {
 	if sc.Version == 0 {
 		sc.Version = rq.Header.Version
 	}
+	cl.wireChecks(sc, rq)
 	switch rq.Header.Opcode {
 	case cqlspec.OpOptions:
+		sc.Advertised = cl.Supported["COMPRESSION"]
 		cl.Send(sc, rec, &cqlspec.Response{Op: cqlspec.OpSupported, Supported: cl.Supported}, cl.SystemFate, "SUPPORTED")
 	case cqlspec.OpStartup:
 		sc.Compression = rq.Options["COMPRESSION"]
@@ -721,4 +728,62 @@ func Describe(rq *cqlspec.Request) string {
 		return fmt.Sprintf("BATCH type=%d n=%d", rq.BatchType, len(rq.Batch))
 	}
 	return fmt.Sprintf("op=%#x", rq.Header.Opcode)
+}
+
+// wireViolation reports a request frame the strict decoder rejects (C03), or, when the
+// rejection is about compression, the corresponding C18 clause. A connection whose
+// transport cut a write short is exempt: its byte stream is legitimately torn.
+func (cl *Cluster) wireViolation(sc *SConn, frame []byte, err error) {
+	if sc.C.PartialWrite() || cl.NoWireOracle {
+		return
+	}
+	h, herr := cqlspec.ParseHeader(frame)
+	op := "?"
+	if herr == nil {
+		op = cqlspec.OpName(h.Opcode)
+		if h.Flags&cqlspec.FlagCompression != 0 && sc.Compression == "" {
+			cl.K.Violate("C18", "C18/compressed-without-negotiation", "conn %s: %s frame carries the compression flag but STARTUP negotiated no compressor", sc.C.Name, op)
+			return
+		}
+		if h.Flags&cqlspec.FlagCompression != 0 {
+			if _, derr := sc.decompressor()(frame[cqlspec.HeaderSize(frame[0]):]); derr != nil {
+				cl.K.Violate("C18", "C18/body-not-a-valid-"+sc.Compression+"-block", "conn %s: %s frame has the compression flag but its body does not decode with the independent %s decoder: %v", sc.C.Name, op, sc.Compression, derr)
+				return
+			}
+		}
+	}
+	msg := err.Error()
+	if len(msg) > 300 {
+		msg = msg[:300]
+	}
+	cl.K.Violate("C03", "C03/undecodable-request:"+op, "conn %s: the strict decoder rejects a %s frame (%d bytes): %s", sc.C.Name, op, len(frame), msg)
+}
+
+// wireChecks are the conversation-level rules every decoded request must satisfy.
+func (cl *Cluster) wireChecks(sc *SConn, rq *cqlspec.Request) {
+	if cl.NoWireOracle {
+		return
+	}
+	op := rq.Header.Opcode
+	if (op == cqlspec.OpOptions || op == cqlspec.OpStartup) && rq.Header.Flags&cqlspec.FlagCompression != 0 {
+		cl.K.Violate("C18", "C18/handshake-frame-compressed", "conn %s: %s carries the compression flag", sc.C.Name, cqlspec.OpName(op))
+	}
+	if sc.Version != 0 && rq.Header.Version != sc.Version {
+		cl.K.Violate("C03", "C03/version-changed-mid-connection", "conn %s: %s frame has version %d, the connection started with %d", sc.C.Name, cqlspec.OpName(op), rq.Header.Version, sc.Version)
+	}
+	if op == cqlspec.OpStartup {
+		if c, ok := rq.Options["COMPRESSION"]; ok {
+			adv := false
+			for _, a := range sc.Advertised {
+				if a == c {
+					adv = true
+				}
+			}
+			if !adv {
+				cl.K.Violate("C18", "C18/compressor-not-advertised", "conn %s: STARTUP asks for COMPRESSION=%q, the SUPPORTED answer on this connection advertised %v", sc.C.Name, c, sc.Advertised)
+			}
+		}
+	} else if op != cqlspec.OpOptions && !sc.Started && !sc.NeedAuth {
+		cl.K.Violate("C03", "C03/request-before-startup", "conn %s: %s sent before STARTUP completed", sc.C.Name, cqlspec.OpName(op))
+	}
 }
